@@ -6,11 +6,13 @@ import (
 	"fmt"
 	"os"
 	"runtime"
+	"strings"
 	"time"
 
 	"github.com/bartossh/Computantis/src/accountant"
 	"verif.local/harness/common"
 	"verif.local/harness/ledger"
+	"verif.local/harness/sched"
 	"verif.local/harness/space"
 	"verif.local/harness/world"
 )
@@ -201,6 +203,13 @@ func ledgerMain(s ledgerSpec, args []string) int {
 	depthF := fs.Int("depth", 0, "override depth")
 	fs.Parse(args)
 	runs := s.runs(common.Tier())
+	if s.id == "C03" && fs.NArg() >= 1 && fs.Arg(0) == "schedworker" {
+		sched.WorkerMain(c03Scenarios())
+		return 0
+	}
+	if s.id == "C03" && *replay != "" && isSchedReplay(*replay) {
+		return sched.ReplayFile("C03", c03Scenarios(), *replay)
+	}
 	if fs.NArg() >= 2 && fs.Arg(0) == "worker" {
 		for _, r := range runs {
 			if r.name == fs.Arg(1) {
@@ -258,6 +267,13 @@ func ledgerMain(s ledgerSpec, args []string) int {
 		}
 	}
 	space.FillEvidence(rep, total)
+	if s.id == "C03" && *run == "" {
+		ex, div := c03SchedRun(rep, *procs)
+		if !ex {
+			rep.Set("exhaustive", false)
+		}
+		total.Diverged += div
+	}
 	rep.Set("runs", perRun)
 	rep.Set("truncate_diff_in_explored_build", accountant.VerifTruncateDiff())
 	rep.Assume("events are atomic: each event runs to quiescence under the non-pre-emptive default schedule; in-event data choices (tip order, walker sibling order) are enumerated exhaustively")
@@ -269,6 +285,11 @@ func ledgerMain(s ledgerSpec, args []string) int {
 		return 2
 	}
 	return rep.Finish()
+}
+
+func isSchedReplay(path string) bool {
+	b, err := os.ReadFile(path)
+	return err == nil && strings.Contains(string(b), "\"scenario\"")
 }
 
 type filterRep struct {
